@@ -292,13 +292,14 @@ def _set_target(h, g):
     h.oblige("power: keep", And((b[1] % 8) != 1, (b[1] % 8) != 2, (b[1] % 8) != 3, (b[1] % 8) != 5))
     h.oblige("setting = 101 set target setpoint", (b[1] // 32) == 5)
     _method_clause(h, g, rec, b, "TEMPERATURE", 3, "temperature control")
+    t = h.exact(t)   # rounding obligations are stated over exact values (natively: the rational the float is)
     if g == 4:
         # resolution 1 degC: |value - t| <= 0.5
-        h.oblige("value byte = the requested temperature rounded to 1 degC", And(b[2] - t <= 0.5, t - b[2] <= 0.5))
+        h.oblige("value byte = the requested temperature rounded to 1 degC", And(h.exact(b[2]) - t <= h.exact(1) / 2, t - h.exact(b[2]) <= h.exact(1) / 2))
     else:
-        sp = (b[2] + 100) / 10
+        sp = (h.exact(b[2]) + 100) / 10
         h.oblige("value byte: setpoint = (value+100)/10 = the requested temperature rounded to 0.1 degC",
-                 And(sp - t <= 0.05, t - sp <= 0.05))
+                 And(sp - t <= h.exact(1) / 20, t - sp <= h.exact(1) / 20))
         h.oblige("value byte inside the documented 0..250 range or rejected", b[2] <= 255)
     h.oblige("byte4 keep 0", b[3] == 0)
     h.cover("set_target frame")
